@@ -49,6 +49,8 @@ Bind(e, names, locs) == [x \in DOMAIN e \cup {names[i] : i \in 1..Len(names)} |-
                             ELSE e[x]]
 RECURSIVE ListOf(_, _)
 ListOf(vs, i) == IF i > Len(vs) THEN <<"nil">> ELSE <<"p", vs[i], ListOf(vs, i + 1)>>
+RECURSIVE ConsOnto(_, _, _)
+ConsOnto(vs, i, tail) == IF i > Len(vs) THEN tail ELSE <<"p", vs[i], ConsOnto(vs, i + 1, tail)>>
 RECURSIVE SeqOfList(_)
 SeqOfList(l) == IF Tag(l) = "p" THEN <<l[2]>> \o SeqOfList(l[3]) ELSE <<>>
 RECURSIVE IsList(_)
@@ -101,7 +103,7 @@ Prim(name, vs) ==
     [] name = "equal?" -> Bool(Equal(vs[1], vs[2]))
     [] name = "list" -> ListOf(vs, 1)
     [] name = "length" -> IF IsList(vs[1]) THEN <<"i", Len(SeqOfList(vs[1]))>> ELSE Err("type")
-    [] name = "append" -> IF IsList(vs[1]) THEN ListOf(SeqOfList(vs[1]) \o SeqOfList(vs[2]), 1) ELSE Err("type")
+    [] name = "append" -> IF IsList(vs[1]) THEN ConsOnto(SeqOfList(vs[1]), 1, vs[2]) ELSE Err("type")   \* R7RS: the last argument may be any object
     [] name = "reverse" -> IF IsList(vs[1]) THEN ListOf(Reverse(SeqOfList(vs[1])), 1) ELSE Err("type")
     [] name = "error-object?" -> Bool(Tag(vs[1]) = "err")
     [] name = "void" -> Void
